@@ -10,6 +10,8 @@ Definition hToken : bytes := bs "X-Token".
 
 Inductive c11_case :=
 | HostCase (input obs_hostname obs_domain : bytes)
+(* net.SplitHostPort itself (stdlib, hand model): Some (host, port) or None for an error *)
+| ShpCase (input : bytes) (obs : option (bytes * bytes))
 | PolicyCase (p : policy) (target : bytes) (via : list bytes) (obs_allowed : bool)
 | ChainCase (ps : list policy) (init : bytes) (hs : hdrs) (targets : list bytes)
             (obs_sent : list (bytes * hdrs)) (obs_refused : bool)
@@ -41,6 +43,12 @@ Definition outcome_eqb (o : list sent * chain_end) (b : list (bytes * hdrs) * bo
 Definition c11_check (c : c11_case) : bool :=
   match c with
   | HostCase i h d => bytes_eqb (get_hostname i) h && bytes_eqb (get_domain i) d
+  | ShpCase i obs =>
+      match split_host_port i, obs with
+      | ShpOk h p, Some (h', p') => bytes_eqb h h' && bytes_eqb p p'
+      | ShpErr, None => true
+      | _, _ => false
+      end
   | PolicyCase p t via a => Bool.eqb (permits p t via) a
   | ChainCase ps init hs ts obs refused =>
       let '(l, e) := run_chain ps init hs ts in
